@@ -19,9 +19,13 @@ tied at run time, in worker interpreters started under the ASan/UBSan runtime (`
       sanitizers report nothing".
  (ii) TIGHTNESS. Kernel-level cases (`harness/c05_tight.py`) are run through ctypes on a `-O0` sanitizer build
       of the kernels with every buffer malloc'ed at exactly the extent the model predicts (`need` request): no
-      report allowed, return code class as predicted; then once per buffer with that buffer one element shorter:
-      a report adjacent to that buffer is required. Both directions of "the footprint of the model is the
-      footprint of the code".
+      report allowed, return code class as predicted — a report there means the footprint model no longer describes
+      the code: a CORRESPONDENCE break (never a failing input: the property is about the buffers the Python entry
+      points pass, which can be larger than the footprint of one call). Then once per buffer with that buffer one
+      element shorter: a report adjacent to that buffer is expected; its absence (the code touches less than the
+      model, which is sound) is counted per kernel and only a model mostly unrelated to the code (> 75 % silent) is a
+      correspondence break. Cases stay inside the wrappers' contracts (what a kernel does outside, and which layer
+      refuses it, is not fixed by the property).
 
 A case is non-trivial when the call reaches a kernel (API stream) / touches at least one element (tightness).
 """
